@@ -519,6 +519,15 @@ func VerifC20IPv6Parity() {
 	excl := verifDualExclude[vp.Choice("dual.exclude", len(verifDualExclude))]
 	cfg := verifConfigWith(verifJoin(incl[0], incl[1]), verifJoin(excl[0], excl[1]))
 	cfg.EnableIPv6 = true
+	// DNS capture is part of the policy both families express: off, every resolver, or one resolver per family
+	dns := vp.Choice("dual.dns", 3)
+	switch dns {
+	case 1:
+		cfg.RedirectDNS, cfg.CaptureAllDNS = true, true
+	case 2:
+		cfg.RedirectDNS = true
+		cfg.DNSServersV4, cfg.DNSServersV6 = []string{"10.96.0.10"}, []string{"fd00::a"}
+	}
 	c := &IptablesConfigurator{ruleBuilder: builder.NewIptablesRuleBuilder(cfg), ext: verifDeps{}, cfg: cfg}
 	if err := c.Run(); err != nil {
 		vp.Unreachable("configuration-of-the-menu-is-accepted")
@@ -548,6 +557,9 @@ func VerifC20IPv6Parity() {
 		if pr[0] != "" && pr[0] != "*" {
 			vp.Assume(in4(pr[0], p4.dst) == in6(pr[1], p6.dst6))
 		}
+	}
+	if dns == 2 {
+		vp.Assume(in4("10.96.0.10/32", p4.dst) == in6("fd00::a/128", p6.dst6))
 	}
 	a4, port4 := verifEval(t4, "OUTPUT", p4, 0)
 	a6, port6 := verifEval(t6, "OUTPUT", &p6, 0)
